@@ -313,6 +313,9 @@ func genLedgerWith(b ledgerBias) func(r *prng, seed uint64, tier string) *Plan {
 			st := Step{Op: "propose", Node: node, From: from, To: to, Cur: cur, Sup: sup, DelayMS: r.Intn(300), NoWait: r.Chance(b.noWaitP)}
 			if r.Chance(b.injectP) {
 				st.Op, st.Kind = "inject", "valid"
+				if r.Chance(forgedWeightP) {
+					st.Kind = "forged-weight" // everything valid but the weight the sealing node declares
+				}
 				if r.Chance(0.3) {
 					st.K = 1 + r.Intn(cfg.Nodes)
 				}
@@ -422,6 +425,9 @@ func init() {
 }
 
 // share of truncating runs that use the weight-triggered truncation loop, and of those the share without any synchronous trigger
+// share of injected valid vertices whose sealing node declares an absurd weight
+var forgedWeightP = envFloat("SIM_FORGED_WEIGHT_P", 0.05)
+
 var truncNatP, truncNatOnlyP = envFloat("SIM_TRUNC_NAT_P", 0.35), envFloat("SIM_TRUNC_NATONLY_P", 0.5)
 
 func envFloat(k string, d float64) float64 {
